@@ -6,6 +6,7 @@ package main
 
 import (
 	"fmt"
+	"go/constant"
 	"go/token"
 	"go/types"
 	"os"
@@ -161,7 +162,7 @@ func c18CollectGraphOps(g *c18Graph, cfg *c18Cfg) (ops []*c18Op, deferred []*c18
 							}
 						}
 						if op == nil {
-							op = &c18Op{Call: call, Fn: full, Kind: m.kind, Path: path, Aux: aux, Fr: fr, cfg: cfg}
+							op = &c18Op{Call: call, Fn: full, Kind: m.kind, Excl: c18OpKind(p, full, m.kind, call) == c18CreateExcl && m.kind != c18CreateExcl, Path: path, Aux: aux, Fr: fr, cfg: cfg}
 							if m.data >= 0 {
 								op.Data = call.Call.Args[m.data]
 							}
@@ -177,7 +178,7 @@ func c18CollectGraphOps(g *c18Graph, cfg *c18Cfg) (ops []*c18Op, deferred []*c18
 				switch {
 				case pkg == "os" && sig.Recv() == nil && !c18ReadOnly[obj.Name()]:
 					unknown = append(unknown, full)
-				case pkg == "os" && sig.Recv() != nil && typeBaseName(sig.Recv().Type()) == "File":
+				case pkg == "os" && sig.Recv() != nil && typeBaseName(sig.Recv().Type()) == "File" && !c18FileHarmless[obj.Name()]:
 					unknown = append(unknown, full)
 				case pkg == "syscall" || pkg == "golang.org/x/sys/unix" || pkg == "os/exec" || pkg == "io/ioutil":
 					unknown = append(unknown, full)
@@ -376,6 +377,8 @@ func c18CheckWriterCore(p *Prog, r *Report, fn *ssa.Function, name string, cfg *
 			}
 		case link != nil && o.Path.String() == link.Path.String():
 			why = "temporary link path"
+		case cfg.isSibling(o.Path):
+			why = "auxiliary path next to the target (neither the target nor below a version directory)"
 		case vdir != nil:
 			if under, self := c18Under(o.Path, vdir); under {
 				switch {
@@ -1041,6 +1044,9 @@ func c18CheckLoop(g *c18Graph, r *Report, name string, cfg *c18Cfg, loop *c18Loo
 		tt.leave()
 	}
 	dataOK := dataT == valT.String()
+	if w.Data == nil {
+		dataOK = true // content goes through the returned *os.File: what is written there is not decided
+	}
 	r.Check(nameOK && dataOK, R.Complete, name+" file name and content of the same map entry", p.Pos(instrPos(w.Call)),
 		"path = join(version dir, key), data = value of the same iteration",
 		"the file written in the loop is not <version dir>/<map key> with the map value of the same entry as content (path "+w.Path.String()+", data "+dataT+"): the published directory does not hold the set passed to Write")
@@ -1161,7 +1167,7 @@ func c18CheckLeftovers(g *c18Graph, r *Report, name string, cfg *c18Cfg, ops []*
 		}
 	}
 	for _, o := range ops {
-		if o.Kind != c18CreateExcl {
+		if o.Kind != c18CreateExcl && !o.Excl {
 			continue
 		}
 		o := o
@@ -1224,6 +1230,15 @@ func c18CheckLeftovers(g *c18Graph, r *Report, name string, cfg *c18Cfg, ops []*
 		case sa.Recreated:
 			r.OK(R.Leftover, construct, at, "after a failed creation the link is created again successfully before the path is consumed")
 		default:
+			// "blocked forever" needs every failure of the creation to abort the write: if a path on which
+			// it failed still returns nil, the leftover is tolerated (and, not being consumed, harmless)
+			if sa.Consumers == 0 && c18FailureReachesNilExit(g, o, bits) {
+				r.OK(R.Leftover, construct, at, "a failure of the creation does not abort the write and the path is not consumed: a leftover cannot block later writes")
+				continue
+			}
+			if sa.Consumers == 0 {
+				blocked = o.Fn + " fails with EEXIST when " + want + " already exists, the path is the same on every call, nothing removes it before this step and every failure of the step aborts the write: a process that dies while the path exists (its later removal, deferred or explicit, never runs) leaves it behind, and every later Write — also from a fresh instance — fails with \"file exists\" forever"
+			}
 			r.Violation(R.Leftover, construct, at, blocked)
 		}
 	}
@@ -1253,6 +1268,9 @@ func c18CheckDeferred(g *c18Graph, r *Report, name string, cfg *c18Cfg, deferred
 			continue
 		case link != nil && o.Path.String() == link.Path.String() && o.Kind == c18Remove:
 			r.OK(R.Paths, name+" deferred "+o.desc(), at, "deferred removal of the temporary link path (harmless)")
+			continue
+		case cfg.isSibling(o.Path) && (link == nil || o.Path.String() != link.Path.String()):
+			r.OK(R.Paths, name+" deferred "+o.desc(), at, "deferred operation on an auxiliary path next to the target")
 			continue
 		default:
 			r.Undecide("%s: cannot relate the path of the deferred %s to the version directory or the temporary link", name, o.desc())
@@ -1544,4 +1562,60 @@ func c18FieldType(p *Prog, tkey, field string) types.Type {
 		}
 	}
 	return nil
+}
+
+// c18FileHarmless: *os.File methods that do not change the name space.
+var c18FileHarmless = map[string]bool{"Close": true, "Sync": true, "Name": true, "Fd": true, "Stat": true,
+	"Read": true, "ReadAt": true, "Seek": true, "Write": true, "WriteString": true, "WriteAt": true, "Chmod": true, "SetDeadline": true}
+
+// c18OpKind refines the kind of an operation from its constant arguments: os.OpenFile with
+// O_CREATE|O_EXCL fails with EEXIST on an existing path like Symlink/Mkdir do.
+func c18OpKind(p *Prog, full string, kind c18Kind, call *ssa.Call) c18Kind {
+	if full != "os.OpenFile" || len(call.Call.Args) < 2 {
+		return kind
+	}
+	k, ok := call.Call.Args[1].(*ssa.Const)
+	if !ok || k.Value == nil {
+		return kind
+	}
+	flags := k.Int64()
+	val := func(name string) int64 {
+		if pkg := p.All["os"]; pkg != nil && pkg.Types != nil {
+			if c, ok := pkg.Types.Scope().Lookup(name).(*types.Const); ok {
+				if v, ok := constantInt64(c); ok {
+					return v
+				}
+			}
+		}
+		return 0
+	}
+	excl, create := val("O_EXCL"), val("O_CREATE")
+	if excl != 0 && create != 0 && flags&excl != 0 && flags&create != 0 {
+		return c18CreateExcl
+	}
+	return kind
+}
+
+func constantInt64(c *types.Const) (int64, bool) {
+	return constant.Int64Val(constant.ToInt(c.Val()))
+}
+
+// c18FailureReachesNilExit: some path on which op o failed ends in a return of a nil error.
+func c18FailureReachesNilExit(g *c18Graph, o *c18Op, bits map[*c18Edge]c18EdgeBits) bool {
+	own := uint64(1) << uint(o.idx)
+	ff := &c18Flow{g: g, Must: false, Edge: func(e *c18Edge, st uint64) uint64 {
+		if bits[e].fail&own != 0 {
+			st |= 1
+		}
+		return st
+	}}
+	ff.Run()
+	for _, n := range g.nodes {
+		if n.exit == "nil" {
+			if st, ok := ff.Before(n); ok && st&1 != 0 {
+				return true
+			}
+		}
+	}
+	return false
 }
